@@ -7,7 +7,7 @@ cd "$(dirname "$0")/.."
 export GOFLAGS=-mod=mod GOPROXY=off GOSUMDB=off GOTOOLCHAIN=local
 TIER=${1:-quick}; shift || true
 PROPS=${@:-C01 C02 C03 C04 C05 C06 C07 C08 C09 C10 C11 C12 C13 C14 C15 C16 C17 C18 C19 C20}
-PKGS=github.com/c2FmZQ/ech,github.com/c2FmZQ/ech/dns,github.com/c2FmZQ/ech/publish,github.com/c2FmZQ/ech/internal/hpke
+PKGS=verifharness/...,github.com/c2FmZQ/ech,github.com/c2FmZQ/ech/dns,github.com/c2FmZQ/ech/publish,github.com/c2FmZQ/ech/internal/hpke
 mkdir -p .build/cov
 (cd harness && go1.26.8 build -tags verif -cover -coverpkg=$PKGS -o ../.build/echdiff-cover ./cmd/echdiff)
 for p in $PROPS; do
@@ -18,6 +18,15 @@ for p in $PROPS; do
     GOCOVERDIR=.build/cov/$p.d .build/echdiff-cover -prop $p -tier $TIER -seed 1 -drv lean/.lake/build/bin/echdrv -out .build/cov/$p.json >/dev/null 2>&1 || true
   fi
   go1.26.8 tool covdata textfmt -i=.build/cov/$p.d -o .build/cov/$p.prof 2>/dev/null || true
-  (cd /repo && go1.26.8 tool cover -func=/verif/.build/cov/$p.prof 2>/dev/null) > .build/cov/$p.txt || true
-  echo "$p $(tail -1 .build/cov/$p.txt)"
+  grep -v "^verifharness" .build/cov/$p.prof > .build/cov/$p-ech.prof 2>/dev/null || true
+  python3 tools/covreport.py .build/cov/$p.prof > .build/cov/$p.txt 2>/dev/null || true
+  echo "$p $(grep TOTAL .build/cov/$p.txt)"
 done | tee .build/cov/SUMMARY.txt
+# union over all campaigns: what no campaign reaches
+dirs=$(ls -d .build/cov/C*.d | tr '\n' ',' | sed 's/,$//')
+rm -rf .build/cov/ALL.d; mkdir -p .build/cov/ALL.d
+go1.26.8 tool covdata merge -i=$dirs -o .build/cov/ALL.d
+go1.26.8 tool covdata textfmt -i=.build/cov/ALL.d -o .build/cov/ALL.prof
+grep -v "^verifharness" .build/cov/ALL.prof > .build/cov/ALL-ech.prof
+python3 tools/covreport.py .build/cov/ALL.prof --blocks > .build/cov/ALL.txt
+echo "union of all campaigns: $(grep TOTAL .build/cov/ALL.txt)" | tee -a .build/cov/SUMMARY.txt
